@@ -421,7 +421,14 @@ inductive DefaultSp where
   | none
   | eq (v : PyVal) (len : Nat)
   | kw (v : PyVal) (len : Nat)
+  /-- `name: T = f` / `T(default=f)` with `f` a default FACTORY (a callable, evaluated once per instance);
+      `p` = its first product (all products are assumed to validate alike) -/
+  | eqF (p : PyVal) (len : Nat)
+  | kwF (p : PyVal) (len : Nat)
 deriving Repr, Inhabited
+
+/-- how a default that is still the factory itself (evaluated per instance) is reported -/
+def factoryTag : PyVal := .opaque "factory"
 
 structure FieldSp where
   name : String
@@ -484,6 +491,7 @@ def kwExtra (s : Sp) (n : Nat) : Nat :=
 def annLenField (fs : FieldSp) : Nat :=
   match fs.dflt with
   | .kw _ n => annLen fs.ty + kwExtra fs.ty n
+  | .kwF _ n => annLen fs.ty + kwExtra fs.ty n
   | _ => annLen fs.ty
 
 /-- `Field.__init__(default=v)`: only a truthy default is validated here -/
@@ -492,12 +500,19 @@ def applyKw (O : Oracles) (o : Obj) (v : PyVal) : R Obj :=
   | .finst d => if truthy v then bindE (tryDefault O d v) fun _ => .ok o else .ok o
   | _ => .error (.other "not-expressible")
 
+/-- `Field.__init__(default=f)`: a callable is truthy, so its product is always validated here -/
+def applyKwF (O : Oracles) (o : Obj) (p : PyVal) : R Obj :=
+  match o with
+  | .finst d => bindE (tryDefault O d p) fun _ => .ok o
+  | _ => .error (.other "not-expressible")
+
 /-- evaluation of the declaration's expression including a `default=` keyword -/
 def evTop (O : Oracles) (tm : TypeMap) (fs : FieldSp) : R Obj :=
   bindE (ev tm fs.ty) fun o =>
   match fs.dflt with
   | .kw v _ =>
     if !kwAllowed fs.ty || !scalarDefault v then .error (.other "not-expressible") else applyKw O o v
+  | .kwF p _ => if !kwAllowed fs.ty then .error (.other "not-expressible") else applyKwF O o p
   | _ => .ok o
 
 def isNoneF : FieldDecl → Bool
@@ -511,34 +526,48 @@ def hasNoneOpt : FieldDecl → Bool
 
 /-- a default given with `=` is validated on every path (`Field.__init__` when truthy,
     `_try_default_value`, `_apply_default_and_update_required…` when falsy) -/
-def finishField (O : Oracles) (d : FieldDecl) (opt : Bool) (dflt : DefaultSp) : R FieldRes :=
+def finishField (O : Oracles) (d : FieldDecl) (opt : Bool) (dflt : DefaultSp) (once : Bool := false) : R FieldRes :=
   match dflt with
   | .none => .ok (.field d (!opt) none)
   | .kw v _ => .ok (.field d false (some v))
+  | .kwF _ _ => .ok (.field d false (some factoryTag))
+  /- a factory given with `=`: its product is validated; the factory itself is kept as `_default`, EXCEPT
+     when the annotation converted to a Field *class* (`once`: `_type_with_default_value_if_exists` then calls
+     `the_type(default=f())`, storing the product; a falsy product is replaced by the factory again in
+     `_apply_default_and_update_required…`) -/
+  | .eqF p _ =>
+    bindE (tryDefault O d p) fun _ => .ok (.field d false (some (if once && truthy p then p else factoryTag)))
   | .eq v _ =>
     if !eqDefault v then .error (.other "unmodelled-default")
     else bindE (tryDefault O d v) fun _ => .ok (eqResult d opt v)
 
-def afterGtli (O : Oracles) (fs : FieldSp) (r : Option FieldDecl) : R FieldRes :=
+def afterGtli (O : Oracles) (fs : FieldSp) (r : Option FieldDecl) (once : Bool := false) : R FieldRes :=
   match r with
   | none => .ok .dropped
-  | some d => finishField O d (hasNoneOpt d || fs.inOptional) fs.dflt
+  | some d => finishField O d (hasNoneOpt d || fs.inOptional) fs.dflt once
+
+/-- `get_typing_lib_info` returned a Field class (not an instance): builtin classes and `typing.Any` -/
+def gtliGivesClass (tm : TypeMap) : Obj → Bool
+  | .ty a => !tm.generic a
+  | _ => false
 
 /-- `add_annotations_to_class_dict` for one evaluated annotation -/
 def annField (O : Oracles) (tm : TypeMap) (fs : FieldSp) (o : Obj) : R FieldRes :=
   if isFieldObj o then bindE (getItem tm o) fun d => finishField O d fs.inOptional fs.dflt
-  else bindE (gtli tm o) fun r => afterGtli O fs r
+  else bindE (gtli tm o) fun r => afterGtli O fs r (gtliGivesClass tm o)
 
 /-- a field object found in the class body (its `default=`, if any, was handled by `applyKw`) -/
 def finishFieldNoCheck (d : FieldDecl) (opt : Bool) (dflt : DefaultSp) : R FieldRes :=
   match dflt with
   | .kw v _ => .ok (.field d false (some v))
+  | .kwF _ _ => .ok (.field d false (some factoryTag))
   | _ => .ok (.field d (!opt) none)
 
 /-- `name = <expr>` in the class body -/
 def assignField (tm : TypeMap) (fs : FieldSp) (o : Obj) : R FieldRes :=
   match fs.dflt with
   | .eq _ _ => .error (.other "not-expressible")
+  | .eqF _ _ => .error (.other "not-expressible")
   | dflt =>
     match o with
     | .finst d => finishFieldNoCheck d fs.inOptional dflt
@@ -546,7 +575,8 @@ def assignField (tm : TypeMap) (fs : FieldSp) (o : Obj) : R FieldRes :=
     | .ty a => if tm.isClass a || tm.generic a then .error .typeErr else .ok .dropped
     | .alias _ _ _ => .error .typeErr
     | .tUnion _ => .error .typeErr
-    | .uType _ => .ok .dropped
+    /- refused like other bare types (typedpy 173578d) -/
+    | .uType _ => .error .typeErr
     | .noneV => .ok .dropped
     | .noneTy => .error .typeErr
 
